@@ -120,6 +120,7 @@ def run(sc: dict, manual=True, keep=True, max_steps=None, sim=None) -> Trace:
         orig = getattr(obj, name)
 
         def w(*a, **k):
+            cur.setdefault("_order", []).append(name)
             if start:
                 cur[phase] = {"pre": pre_fn(), "post": None, "exc": None}
             try:
@@ -154,9 +155,11 @@ def run(sc: dict, manual=True, keep=True, max_steps=None, sim=None) -> Trace:
         except Exception as e:
             cause = e.__cause__ if e.__cause__ is not None else e
             tr.step_error = (k, type(cause).__name__, str(cause), traceback.format_exc())
-            tr.steps.append({"t": t0, "phases": dict(cur), "res": "raised"})
+            order = cur.pop("_order", [])
+            tr.steps.append({"t": t0, "phases": dict(cur), "res": "raised", "order": order})
             break
-        tr.steps.append({"t": t0, "phases": dict(cur), "res": res})
+        order = cur.pop("_order", [])
+        tr.steps.append({"t": t0, "phases": dict(cur), "res": res, "order": order})
         tr.step_results.append(res)
         sim.n_temporal_units_simulated = sim.current_temporal_unit
         if res == 1:
